@@ -1,6 +1,7 @@
 package props
 
 import (
+	"context"
 	"fmt"
 	"net"
 	"net/http"
@@ -141,9 +142,17 @@ func C08(e *core.Env) {
 	res.Rule = "cases = (dangerous built-in, embedding position, call shape, debug flag): 5 built-ins x 16 positions (inline rego, regoModule, code/message form, under a property path, under nested, nested + property, and / or+not / if / then / else only / else + or + nested code-message / atLeast, rego_extensions helper called / unused / as a complete rule) x up to 10 call shapes (statement, array and set comprehension, after a negation, every, nested as an argument, function value of a `with`, after a future keyword used as a variable name - where any rejection counts) x debug in {false, true}; each profile must be rejected by CompileProfile and by Validate, with zero outbound HTTP attempts (recording transport); exhaustive over the listed sets; interleavings: 5 built-ins x 3 positions x 5 stage events of the probing compilation at which the listener runs a complete compilation and validation of an innocent profile, and GenerateRego + CompileRego called directly afterwards: still rejected; " +
 		"plus one well-typed probing profile per built-in of the linked engine (187): the set rejected as unsafe must equal the deny-list read from the source; non-trivial = every case; distinct by (built-in, position, shape, debug)"
 	var hits int64
-	http.DefaultTransport = recordingTransport{&hits}
+	// the engine's http.send clones http.DefaultTransport (it must stay a *http.Transport): every connection attempt is
+	// recorded and refused at the dialer; the default client gets the recording round tripper as well
+	http.DefaultTransport = &http.Transport{Proxy: nil, DialContext: func(ctx context.Context, network, addr string) (net.Conn, error) {
+		atomic.AddInt64(&hits, 1)
+		return nil, fmt.Errorf("network access attempted by the policy: %s %s", network, addr)
+	}}
 	http.DefaultClient.Transport = recordingTransport{&hits}
-	net.DefaultResolver = &net.Resolver{PreferGo: true}
+	net.DefaultResolver = &net.Resolver{PreferGo: true, Dial: func(ctx context.Context, network, addr string) (net.Conn, error) {
+		atomic.AddInt64(&hits, 1)
+		return nil, fmt.Errorf("name resolution over the network attempted by the policy: %s %s", network, addr)
+	}}
 	builtins := []string{}
 	for b := range c08Calls {
 		builtins = append(builtins, b)
@@ -244,9 +253,16 @@ func C08(e *core.Env) {
 					replay := map[string]any{"builtin": b, "position": pos, "profile": profile, "data": data,
 						"schedule": "CompileProfile(profile) with an event channel; when the listener receives " + eventName(stage) + " it runs CompileProfile and Validate of an innocent profile to completion, then lets the call go on", "innocent_profile": PoolProfileMin}
 					if q != nil {
-						out, verr := pkg.ValidateCompiled(q, data, false, nil)
-						replay["report"] = core.Trunc(out, 600)
-						replay["validate_error"] = fmt.Sprint(verr)
+						func() {
+							defer func() {
+								if r := recover(); r != nil {
+									replay["validate_panic"] = fmt.Sprint(r)
+								}
+							}()
+							out, verr := pkg.ValidateCompiled(q, data, false, nil)
+							replay["report"] = core.Trunc(out, 600)
+							replay["validate_error"] = fmt.Sprint(verr)
+						}()
 					}
 					replay["outbound_http_attempts"] = atomic.LoadInt64(&hits)
 					res.Violate("impl-violates-property", fmt.Sprintf("a profile calling %s (%s) is accepted when another profile is compiled during its %s event", b, pos, eventName(stage)), replay)
